@@ -283,6 +283,21 @@ def judge_builtin(res, xmlschema, etree, schema, st, arb, typ, version, t):
         fam = 'year-bearing-date-types' if typ in ('date', 'dateTime', 'dateTimeStamp', 'gYear', 'gYearMonth') else typ
         res.violation(f'encode-roundtrip-differs:{fam}:{text_class(typ, t)}' + (':negative' if n.startswith('-') else ''), case,
                       f'{version} {typ} {t!r}: {dec!r} -> {enc!r} -> {dec2!r}')
+    if typ == 'decimal':
+        # the type also takes float data: what it writes must be in the lexical space (no exponent) and read back equal
+        try:
+            fv = float(dec)
+        except (OverflowError, ValueError):
+            fv = None
+        if fv is not None and math.isfinite(fv):
+            res.count('roundtrip:float_data_for_decimal')
+            try:
+                enc_f = st.encode(fv)
+                back = st.decode(enc_f)
+                if float(back) != fv:
+                    res.violation('encode-roundtrip-differs:decimal:float-data', case, f'{version} decimal: float {fv!r} -> {enc_f!r} -> {back!r}')
+            except xmlschema.XMLSchemaException as e:
+                res.violation('encode-roundtrip-raised:decimal:float-data', case, f'decimal: float {fv!r} written as {st.encode(fv, validation="skip")!r}: {e!r}'[:240])
     # typed decoding options
     if typ in DT.DATE_TYPES + DT.DURATION_TYPES + ('hexBinary', 'base64Binary', 'decimal'):
         try:
@@ -315,7 +330,7 @@ def run_derived(spec, res):
     from lxml import etree
     rng = env.rng_for(PROPERTY, spec['tier'], spec['seed'], 'derived', spec['dshard'])
     for i in range(spec['n']):
-        kind = rng.choice(('int', 'decimal', 'string', 'token', 'date', 'list', 'union', 'hex', 'tz', 'ws'))
+        kind = rng.choice(('int', 'decimal', 'double', 'string', 'token', 'date', 'list', 'union', 'hex', 'tz', 'ws'))
         facets1, facets2 = gen_facets(kind, rng), gen_facets(kind, rng)
         xsd, checker, texts = build_derived(kind, facets1, facets2, rng)
         if xsd is None:
@@ -378,6 +393,12 @@ def gen_facets(kind, rng):
             f['fractionDigits'] = str(rng.randint(0, 2))
         if rng.random() < 0.2:
             f['enumeration'] = ['1', '02', '7'] if kind == 'int' else ['1.0', '2.50', '7']
+    elif kind == 'double':
+        # bounds on a floating type: NaN is incomparable, so it satisfies no bound; the infinities are ordered
+        if rng.random() < 0.7:
+            f['minInclusive' if rng.random() < 0.5 else 'minExclusive'] = rng.choice(('-5', '0', '-INF', '1.5e0'))
+        if rng.random() < 0.7:
+            f['maxInclusive' if rng.random() < 0.5 else 'maxExclusive'] = rng.choice(('10', '1e2', 'INF', '7.5'))
     elif kind in ('string', 'token', 'hex'):
         r = rng.random()
         if r < 0.3:
@@ -467,7 +488,7 @@ def string_facets_ok(f, s, length=None):
 
 
 def build_derived(kind, f1, f2, rng):
-    base = {'int': 'xs:int', 'decimal': 'xs:decimal', 'string': 'xs:string', 'token': 'xs:token', 'date': 'xs:date',
+    base = {'int': 'xs:int', 'decimal': 'xs:decimal', 'double': rng.choice(('xs:double', 'xs:float')), 'string': 'xs:string', 'token': 'xs:token', 'date': 'xs:date',
             'hex': 'xs:hexBinary'}.get(kind)
     if kind == 'list':
         # item types: the length family counts list items whatever the item type is (for atomic QName / NOTATION the
@@ -540,6 +561,21 @@ def build_derived(kind, f1, f2, rng):
             return numeric_facets_ok(f1, v, n, kind) and numeric_facets_ok(f2, v, n, kind)
         texts = ['0', '1', '02', '7', '-5', '-6', '5', '6', '20', '21', '100', '1.0', '2.50', '2.5', '7.00', '0.001', '1e1', ' 7 ', '1_0',
                  '+7', '12.34', '123', '1234', '.5', '-0.0']
+        return xsd, chk, texts
+    if kind == 'double':
+        def chk(t, version):
+            n = DT.normalize('double', t)
+            if not DT.lexical_ok('double', n, version):
+                return False
+            v = DT.value('double', n)
+            for f in (f1, f2):
+                for name, ok in (('minInclusive', lambda b: v >= b), ('minExclusive', lambda b: v > b),
+                                 ('maxInclusive', lambda b: v <= b), ('maxExclusive', lambda b: v < b)):
+                    if name in f and not ok(DT.value('double', f[name])):
+                        return False
+            return True
+        texts = ['0', '-0.0', '1', '7.5', '7.50001', '10', '1e2', '100.5', '-5', '-5.0001', '1.5', '1.49', 'INF', '-INF', 'NaN', '+INF',
+                 ' 3 ', '1e400', '-1e400', '1e-400', 'nan', '0x1p3', '٣']
         return xsd, chk, texts
     if kind in ('string', 'token'):
         def chk(t, version):
